@@ -265,17 +265,17 @@ Proof.
   apply app_eq_nil in Hr. destruct Hr as [_ Hr]. apply app_eq_nil in Hr. apply Hr.
 Qed.
 
-Definition R (s s' : src) : Prop := TailOf (segs s) (segs s') /\ (Full s -> Full s').
+Definition R0 (s s' : src) : Prop := TailOf (segs s) (segs s') /\ (Full s -> Full s').
 
-Lemma R_refl s : R s s.
+Lemma R0_refl s : R0 s s.
 Proof. split; [apply TailOf_refl|exact (fun H => H)]. Qed.
 
-Lemma R_trans a b c : R a b -> R b c -> R a c.
+Lemma R0_trans a b c : R0 a b -> R0 b c -> R0 a c.
 Proof. intros [H1 H2] [H3 H4]. split; [exact (TailOf_trans _ _ _ H1 H3)|exact (fun H => H4 (H2 H))]. Qed.
 
-(* R looks at lo, segs and stake only *)
-Lemma R_same a b b' : lo b' = lo b -> segs b' = segs b -> stake b' = stake b -> R a b -> R a b'.
-Proof. intros E1 E2 E3 [H1 H2]. unfold R, Full. rewrite E1, E2, E3. split; assumption. Qed.
+(* R0 looks at lo, segs and stake only *)
+Lemma R0_same a b b' : lo b' = lo b -> segs b' = segs b -> stake b' = stake b -> R0 a b -> R0 a b'.
+Proof. intros E1 E2 E3 [H1 H2]. unfold R0, Full. rewrite E1, E2, E3. split; assumption. Qed.
 
 Lemma inner_read_tail k l sg out l' sg' : inner_read k l sg = (out, l', sg') -> TailOf sg sg'.
 Proof.
@@ -285,10 +285,10 @@ Proof.
   - intros H. inversion H. apply TailOf_refl.
 Qed.
 
-Lemma take_read_R k s out l' sg' tk b f : take_read k s = (out, l', sg', tk) ->
-  R s {| bbuf := b; lo := l'; segs := sg'; sfuel := f; stake := tk |}.
+Lemma take_read_R0 k s out l' sg' tk b f : take_read k s = (out, l', sg', tk) ->
+  R0 s {| bbuf := b; lo := l'; segs := sg'; sfuel := f; stake := tk |}.
 Proof.
-  unfold take_read, R, Full. cbn [lo segs stake]. destruct (stake s) as [lim|].
+  unfold take_read, R0, Full. cbn [lo segs stake]. destruct (stake s) as [lim|].
   - destruct (N.eqb_spec lim 0) as [E0|E0].
     + intros H. inversion H. subst. split; [apply TailOf_refl|exact (fun H => H)].
     + destruct (inner_read (N.min k lim) (lo s) (segs s)) as [[o l1] sg1] eqn:E. intros H. inversion H. subst.
@@ -299,23 +299,47 @@ Proof.
     split; [exact (inner_read_tail _ _ _ _ _ _ E)|exact (fun H => H)].
 Qed.
 
-Lemma fill_buf_R s : R s (fill_buf s).
+Lemma fill_buf_R0 s : R0 s (fill_buf s).
 Proof.
-  unfold fill_buf. destruct (bbuf s); [|apply R_refl].
-  destruct (take_read BUF_SIZE s) as [[[out l'] sg'] tk] eqn:E. exact (take_read_R _ _ _ _ _ _ _ _ E).
+  unfold fill_buf. destruct (bbuf s); [|apply R0_refl].
+  destruct (take_read BUF_SIZE s) as [[[out l'] sg'] tk] eqn:E. exact (take_read_R0 _ _ _ _ _ _ _ _ E).
 Qed.
 
-Lemma consume_R n s : R s (consume n s).
-Proof. apply (R_same s s); try reflexivity. apply R_refl. Qed.
+Lemma consume_R0 n s : R0 s (consume n s).
+Proof. apply (R0_same s s); try reflexivity. apply R0_refl. Qed.
 
-Lemma buf_read_R k s out s' : buf_read k s = (out, s') -> R s s'.
+Lemma buf_read_R0 k s out s' : buf_read k s = (out, s') -> R0 s s'.
 Proof.
   unfold buf_read. destruct (bbuf s).
   - destruct (N.leb BUF_SIZE k).
     + destruct (take_read k s) as [[[o l'] sg'] tk] eqn:E. intros H. inversion H. subst.
-      exact (take_read_R _ _ _ _ _ _ _ _ E).
-    + intros H. inversion H. subst. exact (R_trans _ _ _ (fill_buf_R s) (consume_R k _)).
-  - intros H. inversion H. apply consume_R.
+      exact (take_read_R0 _ _ _ _ _ _ _ _ E).
+    + intros H. inversion H. subst. exact (R0_trans _ _ _ (fill_buf_R0 s) (consume_R0 k _)).
+  - intros H. inversion H. apply consume_R0.
+Qed.
+
+(* the relation threaded through all layers: R0, and nothing becomes reachable that was not *)
+Definition R (s s' : src) : Prop := R0 s s' /\ (length (reach s') <= length (reach s))%nat.
+
+Lemma R_refl s : R s s.
+Proof. split; [apply R0_refl|lia]. Qed.
+
+Lemma R_trans a b c : R a b -> R b c -> R a c.
+Proof. intros [H1 H2] [H3 H4]. split; [exact (R0_trans _ _ _ H1 H3)|lia]. Qed.
+
+Lemma fill_buf_R s : R s (fill_buf s).
+Proof. split; [apply fill_buf_R0|rewrite fill_buf_rest; lia]. Qed.
+
+Lemma consume_R n s : R s (consume n s).
+Proof.
+  split; [apply consume_R0|]. destruct (consume_firstnN s n) as [C _].
+  apply (f_equal (@length byte)) in C. rewrite app_length in C. lia.
+Qed.
+
+Lemma buf_read_R k s out s' : buf_read k s = (out, s') -> R s s'.
+Proof.
+  intros H. split; [exact (buf_read_R0 _ _ _ _ H)|].
+  apply buf_read_spec in H. destruct H as [B1 _]. rewrite B1, app_length. lia.
 Qed.
 
 Lemma read_exact_loop_R fuel : forall n s acc x s', read_exact_loop fuel n s acc = Some (x, s') -> R s s'.
